@@ -1,8 +1,8 @@
 /-
   Bnum.Model.Radix — `src/buint/radix.rs` (everything), `src/bint/radix.rs`, the two `FromStr`
   impls (`src/buint/radix.rs`, `src/bint/convert.rs`), `assert_range!` (`src/int/radix.rs`),
-  `ParseIntError` kinds (`src/errors/parseint.rs`) and — only for the radix-256 path of
-  `from_radix_be/le` — `from_be_slice` / `from_le_slice` (`src/buint/endian.rs`).
+  `ParseIntError` kinds (`src/errors/parseint.rs`).  The radix-256 path of `from_radix_be/le`
+  delegates to `UI.fromBeSlice` / `UI.fromLeSlice` of Model/Endian.lean (`digit::BYTES = w / 8`).
   Import-free (core Lean only + other Model files).
 
   Data representation.  `&str` / `&[u8]` / `Vec<u8>` are `List Nat` of bytes (`< 256`), `radix : u32`
@@ -34,6 +34,7 @@ import Bnum.Model.AddSub
 import Bnum.Model.Cmp
 import Bnum.Model.BitOps
 import Bnum.Model.Div
+import Bnum.Model.Endian
 namespace Bnum
 
 /-- `core::num::IntErrorKind` (the four kinds the crate produces) -/
@@ -251,36 +252,6 @@ def fromBufRadixInternal (w n : Nat) (fromStr be : Bool) (buf : List Nat) (radix
     .ok (pow2Arm w n fromStr be buf radix off len)
   else generalArm w n fromStr be buf radix off len
 
-/-! ### `from_le_slice` / `from_be_slice` (`src/buint/endian.rs`), used for radix 256 -/
-
-/-- `$Digit::from_le_bytes` of a (possibly short, zero padded) byte chunk -/
-def leBytesVal : List Nat → Nat
-  | [] => 0
-  | b :: bs => b + 256 * leBytesVal bs
-
-/-- common loop of both decoders over the bytes in least-significant-first order: `exact` whole
-    digits, then the `rem` bytes of the last partial digit; digits at index `≥ N` must be zero. -/
-def sliceLoop (bytes n : Nat) : Nat → List Nat → Nat → Option (List Nat)
-  | _, [], _ => some []
-  | 0, _ :: _, _ => some []
-  | f + 1, b :: bs, i =>
-    let rest := b :: bs
-    let digit := leBytesVal (rest.take bytes)
-    if i < n then
-      match sliceLoop bytes n f (rest.drop bytes) (i + 1) with
-      | none => none
-      | some ds => some (digit :: ds)
-    else if digit != 0 then none
-    else sliceLoop bytes n f (rest.drop bytes) (i + 1)
-
-/-- `from_le_slice` (`$Digit::BYTES = w / 8`) -/
-def fromLeSlice (w n : Nat) (slice : List Nat) : Option (List Nat) :=
-  match sliceLoop (w / 8) n slice.length slice 0 with
-  | none => none
-  | some ds => some (ds ++ List.replicate (n - ds.length) 0)
-/-- `from_be_slice`: the same digits, read from the end of the slice -/
-def fromBeSlice (w n : Nat) (slice : List Nat) : Option (List Nat) := fromLeSlice w n slice.reverse
-
 end Radix
 
 /-! ### `BUint` parsing API -/
@@ -303,14 +274,14 @@ def parseBytes (w n : Nat) (buf : List Nat) (radix : Nat) : Outcome (Option (Lis
 def fromRadixBe (w n : Nat) (buf : List Nat) (radix : Nat) : Outcome (Option (List Nat)) :=
   if !inRange radix 256 then .panic else
   if buf.isEmpty then .ok (some (zero n)) else
-  if radix == 256 then .ok (fromBeSlice w n buf) else
+  if radix == 256 then UI.fromBeSlice (w / 8) n buf else
   (fromBufRadixInternal w n false true buf radix false).map PRes.toOption
 
 /-- `BUint::from_radix_le` -/
 def fromRadixLe (w n : Nat) (buf : List Nat) (radix : Nat) : Outcome (Option (List Nat)) :=
   if !inRange radix 256 then .panic else
   if buf.isEmpty then .ok (some (zero n)) else
-  if radix == 256 then .ok (fromLeSlice w n buf) else
+  if radix == 256 then UI.fromLeSlice (w / 8) n buf else
   (fromBufRadixInternal w n false false buf radix false).map PRes.toOption
 
 /-- `<BUint as FromStr>::from_str` -/
